@@ -31,6 +31,17 @@ def cp_cfg(rng: random.Random, tier: str) -> gen.GenCfg:
 
 def gen_cp_case(rng: random.Random, tier: str) -> Dict[str, Any]:
     cfg = cp_cfg(rng, tier)
+    if rng.random() < 0.4:      # contention: a second thread launches onto the same streams while the first one synchronises
+        cfg.bwd_thread = True
+        cfg.p_sync = 0.3
+        cfg.p_launch = 0.6
+        cfg.n_ranks = 1
+        cfg.adv = (0, 1, 1, 2)
+        cfg.kdur = (3, 5, 8)
+        cfg.kgap = (0, 0, 1)
+        cfg.streams = (7, 9)
+        cfg.n_steps = rng.choice([0, 1])
+        cfg.max_children = 3
     if cfg.n_steps == 0 and cfg.pre_ops == 0 and cfg.post_ops == 0:
         cfg.pre_ops = 1
     case = case_from_cfg(rng, cfg)
@@ -179,7 +190,7 @@ class _CP(Prop):
 class C08(_CP):
     id = "C08"
     mc = [{"module": "MC_CriticalPath", "quick": "MC_CriticalPath_quick.cfg", "thorough": "MC_CriticalPath.cfg", "actions": []}]
-    n_cases = {"quick": 200, "thorough": 2500}
+    n_cases = {"quick": 400, "thorough": 4000}
     rule = ("program-simulated causally consistent traces: 1-2 ranks, 0-3 profiler steps, 1-3 strictly serial streams, nested operators, blocking "
             "calls, stream / context / event synchronisation, optional autograd thread; annotation in {ProfilerStep, '', '## backward ##'} with "
             "instance None / k / (i,j) drawn among the instances present; zero-weight launch edges on/off; non-trivial iff the graph has a "
@@ -224,10 +235,20 @@ class C08(_CP):
         ctx.replayed += len(keys)
         ctx.extra_cov["builder_model_programs_replayed"] = len(keys)
         ctx.extra_cov["builder_model_behaviours"] = len(behs)
+        ctx.extra_cov["builder_model_drift"] = len(drift)
         if drift:
+            # The code no longer builds the graphs the model builds.  That is not by itself a violation of C08 (the clauses are judged on the
+            # real graphs above); it is reported so that the model gets updated, and any crash of the real analysis on a model program
+            # (a causally consistent trace by construction) IS a violation of "the analysis succeeds".
             p0 = drift[0]
-            raise tlc.TLCError(f"spec drift: the real critical-path builder and MC_CriticalPath disagree on {len(drift)} of {len(keys)} programs; "
-                               f"first: prog={_json.dumps(p0[0])} real={_json.dumps(p0[1])} model={_json.dumps(p0[2][:2])}")
+            print(f"SPEC-DRIFT C08: real builder and MC_CriticalPath disagree on {len(drift)} of {len(keys)} programs; first: "
+                  f"prog={_json.dumps(p0[0])} real={_json.dumps(p0[1])[:400]} model={_json.dumps(p0[2][:1])[:400]}")
+            ctx.notes.append(f"SPEC-DRIFT: {len(drift)} of {len(keys)} model programs built a different graph in the real code")
+            for prog, res, _ in drift:
+                if res["err"] or not res.get("ok", False):
+                    case = program_to_case(prog, rr)
+                    case["id"] = f"C08-model-{abs(hash(_json.dumps(prog))) % 10**8}"
+                    ctx.fail(case["id"], "succeeds(model program)", {"case": case, "obs": res, "failing_clauses": ["succeeds"], "shape_tags": []})
 
     def nontrivial(self, case, obs):
         ty = {e["type"] for e in obs.get("edges", [])}
